@@ -1,1 +1,33 @@
-fn main() {}
+use hx_projgen::compile::*;
+use hx_projgen::gen::*;
+use hx_projgen::Rng;
+use std::collections::BTreeMap;
+fn main() {
+    hx_common::quiet_panics();
+    let n: u64 = std::env::args().nth(1).and_then(|s| s.parse().ok()).unwrap_or(200);
+    let seed: u64 = std::env::var("VERIF_SEED").ok().and_then(|s| s.parse().ok()).unwrap_or(1);
+    let o = GenOpts::default();
+    let mut hist: BTreeMap<String, usize> = BTreeMap::new();
+    let mut ok = 0;
+    let mut shown: BTreeMap<String, usize> = BTreeMap::new();
+    for i in 0..n {
+        let mut r = Rng::new(seed, i);
+        let p = generate(&mut r, &o);
+        let out = compile_project(&p);
+        if out.result.is_ok() { ok += 1; }
+        let key = match &out.result { CompileResult::Panic(m) => format!("panic: {}", &m[..m.len().min(90)]), x => x.summary() };
+        *hist.entry(key.clone()).or_default() += 1;
+        if !out.result.is_ok() {
+            let c = shown.entry(key.clone()).or_default();
+            if *c < 1 && std::env::var("SHOW").is_ok() {
+                *c += 1;
+                println!("=== case {i}: {key}");
+                if let CompileResult::Diagnostics(ds) = &out.result { for d in ds.iter().take(2) { println!("{}", d.rendered.clone().unwrap_or(d.message.clone())); } }
+                if let CompileResult::Panic(m) = &out.result { println!("{m}"); }
+                for (f, b) in hx_projgen::render::render_default(&p) { println!("--- {}\n{}", f.display(), String::from_utf8_lossy(&b)); }
+            }
+        }
+    }
+    println!("accepted {ok}/{n}");
+    for (k, v) in hist { println!("{v:6} {k}"); }
+}
